@@ -87,7 +87,8 @@ def purity(ctx):
             n_methods += 1
             for kind, label in (("control", "static/control"), ("hostcall", "static/hostcall")):
                 fs = [f for f in findings if f[0] == kind]
-                ctx.oblige(f"C14/{node.name}/{label}", not fs, [], props, kind=label, fn=f"{mod}.{node.name}", note="; ".join(f"line {ln}: {txt}" for _k, ln, txt in fs)[:600])
+                ctx.oblige(f"C14/{node.name}/{label}", not fs, [], props, kind=label, fn=f"{mod}.{node.name}", note="; ".join(f"line {ln}: {txt}" for _k, ln, txt in fs)[:600],
+                           replay=dict(kind="c14", cls="AutoregressiveBisectionInverter", method=node.name, vars={}))
     # hidden state across calls: memoised functions and module-level containers mutated from function bodies, anywhere in the
     # package (a value created under one jit trace and reused outside it is a leaked tracer; results then depend on call history)
     MEMO = ("lru_cache", "cache", "cached_property", "memoize", "memoise")
